@@ -103,6 +103,9 @@ def check_cooling(case):
     cpt = float(comp.get_specific_heat(t0))
     require(abs(d - cpt) <= 1e-9 * sum(abs(c[i]) * t0**i for i in range(4)) + 1e-11 * scale(t0 + 2, t1) + 1e-300,
             "dQ/dt0 at %r = %r but Cp = %r", t0, d, cpt)
+    # keyword call (t0 = upper limit, t1 = lower limit, as documented)
+    qk = call(comp.get_cooling_heat, t0=t0, t1=t1)
+    require(not is_raised(qk) and float(qk) == q01, "get_cooling_heat(t0=%r, t1=%r) by keyword gives %r, positionally %r", t0, t1, qk, q01)
     # array-valued temperatures (numpy broadcasting): same numbers, arguments untouched
     import numpy
 
@@ -112,6 +115,16 @@ def check_cooling(case):
     require(a0[0] == t0 and a0[1] == t2 and a1[0] == t1 and a1[1] == t1, "get_cooling_heat modified its array arguments: %r, %r", a0, a1)
     require(abs(float(qa[0]) - q01) <= tol and abs(float(qa[1]) - q(t2, t1)) <= 1e-12 * scale(t2, t1) + 1e-300,
             "get_cooling_heat with array temperatures gives %r, scalar calls give %r, %r", qa, q01, q(t2, t1))
+    if "builtin" not in case["component"]:
+        # the constants of a component that has already been used are edited in place (a user tuning a fit): the integral must follow
+        k.b = k.b * 1.5 + 0.25
+        k.d = k.d * 0.5
+        c2 = [k.a, k.b, k.c, k.d]
+        q_new = float(comp.get_cooling_heat(t0, t1))
+        quad_new = gauss2(lambda x: float(comp.get_specific_heat(x)), t1, t0)
+        sc = sum(abs(c2[i]) * (abs(t0) ** (i + 1) + abs(t1) ** (i + 1)) / (i + 1) for i in range(4))
+        require(abs(q_new - quad_new) <= 1e-12 * sc + 1e-300, "after editing the heat-capacity constants in place: cooling heat %r but the integral of Cp is %r",
+                q_new, quad_new)
     return {"nontrivial": t0 != t1 and t1 != t2, "classes": ["builtin" if "builtin" in case["component"] else "random"]}
 
 
